@@ -3,6 +3,7 @@ package main
 // The checks register themselves in init functions of their packages.
 import (
 	_ "verif/h/c01"
+	_ "verif/h/c02"
 	_ "verif/h/c03"
 	_ "verif/h/c04"
 	_ "verif/h/c05"
